@@ -554,6 +554,12 @@ func (s *Server) blobUploadPut(repoStr, sessionID string) http.HandlerFunc {
 		}
 		err = bc.Close()
 		if err != nil {
+			if errors.Is(err, types.ErrNotFound) {
+				// the session expired or was evicted while this request was under way
+				w.WriteHeader(http.StatusBadRequest)
+				_ = types.ErrRespJSON(w, types.ErrInfoBlobUploadUnknown("upload session not found"))
+				return
+			}
 			w.WriteHeader(http.StatusInternalServerError)
 			s.log.Error("failed to close blob upload", "err", err, "repo", repoStr, "sessionID", sessionID)
 			return
